@@ -32,6 +32,14 @@ CLAIMS = {
    text="Quantiser.tla states shortest_int as a relation (a pair of order statistics lag=floor(p*len/100) apart of minimal width - any minimiser) and ADC as code within half a step of the ideal value for in-range samples / end code outside, relative to SOME minimal 99.99 % interval, all in exact integer arithmetic; QuantiserModel.tla explores every sorted data set of <= 6 (7) values from 0..4 (all tie patterns) x 9 percentages x n in 1..3 with every admissible interval and rounding choice. The real functions are run on the same exhaustive domain (shuffled, three power-of-two scales incl. 2^-36) and on Gaussian/uniform/sinusoidal/quantised records up to 2^15+3 (2^17 thorough) samples with injected outliers, n up to 12, both otype values, ndarray/signal/signal+noise inputs; every call is validated by TLC (QuantiserTrace), which itself evaluates minimality over the whole sorted record.",
    note="trusted: TLC, JSON transport; data are integer-valued times a power of two so that doubles are exact; record lengths where p*len/100 is an exact integer with p=99.99 are avoided (float floor ambiguity); constant records (hi=lo) are outside the statement",
    technique="TLA+ relational spec + TLC exhaustive model checking + TLC trace validation"),
+ "C05": dict(level="model_checking",
+   text="DacSampler.tla defines the NRZ/RZ waveform sample by sample, SAMPLER as strided selection of signal and noise, the decision against bias+Vout/2 and the single-fault argument verdict table; DacModel.tla explores every bit string <= 6 (7) bits x sps 2..9 x NRZ/RZ x integer amplitudes of both signs x every sampling instant with LenExact, SlotExact, SamplerInverts. The real DAC/SAMPLER are run on the same exhaustive domain in five container forms and on random runs with sps 2..128 (odd included), dyadic Vout/bias of both signs, noise-carrying signals and every instant; all waveforms and sampled values are validated exactly by TLC (DacTrace). The Gaussian clause is a contract on the three observables of the statement (peak position, peak level, half-maximum width) plus SAMPLER(sps//2) decision, measured by the harness on an isolated 1 for sps 8..128, T in [sps/2, 2 sps], m 1..4 and judged by TLC.",
+   note="trusted: TLC; amplitudes are multiples of 1/64 V (exact in doubles and as TLC integers); the Gaussian pulse shape itself is not modelled - only the three observables the statement names; verdicts are tested one fault at a time",
+   technique="TLA+ transcription + TLC exhaustive model checking + TLC trace validation (exact values; contract for the Gaussian clause)"),
+ "C19": dict(level="model_checking",
+   text="Text.tla specifies dec2bin, the si decade ladder (exact integer relation between x=m*10^e, the printed mantissa and the prefix power, and the [1,1000) mantissa range) and the text form of int/float/complex 1-D/2-D arrays with the bit-pattern and dtype rules; TextModel.tla enumerates every (v,d) with d<=12 (16) and every array of <= 2x2 (2x3) entries over a 10-value alphabet x 3 separator styles x 5 dtypes (~80k states), and every rendered text is parsed by the real str2array and compared with the spec's expectation (values, shape, kind). dec2bin for every (v,d), si over all 30 decades x mantissas x precisions, the Q table (mpmath constants in Sci.tla), inverse pairs/homomorphisms of db/dbm/idb/idbm over 30 decades and +-300 dB on scalars and arrays, Q symmetry/monotonicity, rcos range/evenness/half-point/cut-off, the gaus integral and the negative-input verdicts are recorded from the real code and judged by TLC (TextTrace).",
+   note="trusted: TLC; floating-point observables enter TLC as 8-digit Sci pairs, so identities are decided to ~1e-7 relative (1e-6 for the Riemann sum); the Q table constants come from mpmath (30 digits) and are committed in Sci.tla; a 0/1-only text with rows of unequal digit count is not the text of an array and is skipped",
+   technique="TLA+ transcription + TLC exhaustive enumeration replayed on the code + TLC trace validation of numeric identities"),
 }
 
 
